@@ -10,9 +10,9 @@ RULE += ("; lines end in \\n, \\r\\n or a lone \\r (the last possibly unterminat
          "(\\x0b \\x0c \\x1c-\\x1f) around the line and around '='; comment lines carry non-ASCII text incl. U+0085/U+2028/U+2029; a quarter of "
          "the loads go into a Database object that already holds another file, half of those by editing the file in place and loading the same path again; "
          "label names / flavours, sys entries and HTTP software carry non-ASCII characters")
-ASSUMPTIONS = ["non-ASCII characters only in comment lines and at the end of label / sys / HTTP-software texts, and never Unicode white space there (the model reads UTF-8 bytes); a 9th colon field / 5th label part is silently "
+ASSUMPTIONS = ["a 9th colon field / 5th label part is silently "
                "dropped (as the code does)"]
-GEN_TIE = ["sig", "file"]   # TCPSignature.parse / MTUSignature.parse and their field parsers are also TRANSLATED (translate/sig2coq.py) on every run and proved equal to the model (Gen/GenSigP.v); so are the line loop of _parse_file, _parse_section, labels and RecordsDatabase.create/add (translate/file2coq.py, Gen/GenFileP.v)
+GEN_TIE = ["sig", "file", "httpx"]   # TCPSignature.parse / MTUSignature.parse and their field parsers are also TRANSLATED (translate/sig2coq.py) on every run and proved equal to the model (Gen/GenSigP.v); so are the line loop of _parse_file, _parse_section, labels and RecordsDatabase.create/add (translate/file2coq.py, Gen/GenFileP.v)
 EXHAUSTIVE = {}
 
 
